@@ -36,3 +36,8 @@ def direction(v) -> list[int]:
         if v is m:
             return list(unhexlify(m.value))
     return [255, 255]
+
+
+def integer(v) -> int:
+    """A field documented as int is an int (not its text, not a float that happens to be whole)."""
+    return v if isinstance(v, int) and not isinstance(v, bool) else -999
